@@ -4,6 +4,7 @@
 id=$1; wt=${2:-/tmp/seed/$id}; out=$wt/seeded_out
 cd "$wt" || exit 2
 git checkout -q -- src include 2>/dev/null
+rm -rf _b; cmake -G Ninja -S . -B _b -DCMAKE_BUILD_TYPE=RelWithDebInfo -DCMAKE_C_FLAGS=-Wno-error -DFIBER_RUN_TESTS_WITH_BUILD=OFF >/dev/null 2>&1 && cmake --build _b >/dev/null 2>&1
 echo "== pristine demo"; sh "$out/run_demo.sh" > "$out/demo_pristine.log" 2>&1; p=$?; tail -2 "$out/demo_pristine.log"; echo "exit=$p"
 git apply "$out/patch.diff" || { echo "patch does not apply"; exit 2; }
 echo "== suite with the change"
